@@ -196,9 +196,22 @@ func (e *Engine) interop(fr *frame, st *State, c *ast.CallExpr, fn *types.Func, 
 		}
 		txconst()
 	case has(full, "native/gas.BalanceOf"), has(full, "native/neo.BalanceOf"):
-		// balances change with the transfers made so far: depend on the number of logged calls
+		// balances change with the transfers made so far: the i-th read of a balance is an unknown value that
+		// contracts can name as asint(cres("native_gas_BalanceOf", i)); reads are logged per method, not dirty
 		withArgs(func(st *State, vs []Val) {
-			k(st, []Val{e.uf(short, resTy, append(vs, mk(sx.Int(int64(len(st.xcalls.Items))), spec.KInt), nbv(sx.Str(st.xcalls.Base)))...)})
+			ev := spec.Event{Name: short}
+			for _, v := range vs {
+				if v.T != nil {
+					ev.Args = append(ev.Args, v.T)
+					ev.Sorts = append(ev.Sorts, v.Ty.Sort())
+				}
+			}
+			pos := e.xlog(st, short)
+			e.xappend(st, short, ev)
+			fnName := "cres_" + short
+			e.extraFn["cres:"+fnName] = fmt.Sprintf("(declare-fun %s (Int) Any)", fnName)
+			any := Val{TV: spec.TV{T: sx.App(fnName, (&pos).LenT()), Ty: spec.Type{K: spec.KAny}}}
+			k(st, []Val{e.convert(any, resTy)})
 		})
 	// ---- pure functions ---------------------------------------------------------
 	case has(full, "interop/convert.ToBytes"):
